@@ -1,13 +1,17 @@
 ------------------------------ MODULE Matcher ------------------------------
 (* Materialised subscriptions (crates/klukai-types/src/pubsub.rs: Matcher::handle_candidates and the         *)
 (* per-table statements built at creation).  Two tables A(id, x) and B(id, aid, y); the query shapes are a    *)
-(* filtered projection of A, the inner join A |><| B on B.aid = A.id and the left join A =|><| B.  For every     *)
+(* plain and a filtered projection of A, the inner join A |><| B on B.aid = A.id and the left join A =|><| B.  For every     *)
 (* table with changed keys the matcher re-evaluates the query restricted to those keys - with a LEFT JOIN       *)
 (* rewritten to an INNER JOIN when the restricted table is the joined (nullable) side -, replaces the stored    *)
 (* rows that carry those keys by the result, and emits insert / update / delete events by comparing.            *)
 EXTENDS Naturals, FiniteSets, Sequences, TLC
 
-CONSTANTS Ids, Vals, Shape, MaxTx      \* Shape \in {"filter", "inner", "left"}
+CONSTANTS Ids, Vals, Shape, MaxTx,     \* Shape \in {"filter", "inner", "left"}
+          NullSafe                     \* TRUE: the stored row is updated when a column `IS NOT` the new one (the code);
+                                       \* FALSE: `!=`, which is NULL whenever one side is NULL (a plausible slip)
+Null == 9                              \* SQL NULL stored in a present row (0 == absent row / NULL side of the left join)
+IsNull(v) == v = 0 \/ v = Null
 
 VARIABLES A,        \* [Ids -> 0..]: x of row id (0 == absent)
           B,        \* [Ids -> [aid, y]] (aid = 0 == absent)
@@ -19,7 +23,8 @@ vars == <<A, B, view, pending, events, ntx>>
 
 NoB == [aid |-> 0, y |-> 0]
 (* the subscribed query evaluated on the database *)
-Q == IF Shape = "filter" THEN {[a |-> i, b |-> 0, x |-> A[i], y |-> 0] : i \in {j \in Ids : A[j] > 1}}
+Q == IF Shape = "filter" THEN {[a |-> i, b |-> 0, x |-> A[i], y |-> 0] : i \in {j \in Ids : A[j] > 1 /\ A[j] # Null}}
+     ELSE IF Shape = "plain" THEN {[a |-> i, b |-> 0, x |-> A[i], y |-> 0] : i \in {j \in Ids : A[j] > 0}}
      ELSE LET inner == {[a |-> i, b |-> j, x |-> A[i], y |-> B[j].y] : i \in {k \in Ids : A[k] > 0}, j \in {k \in Ids : B[k].aid # 0}}
               matched == {r \in inner : B[r.b].aid = r.a}
           IN IF Shape = "inner" THEN matched
@@ -37,19 +42,38 @@ WriteB(j, aid, y) == /\ ntx < MaxTx /\ B[j] # [aid |-> aid, y |-> y] /\ (aid = 0
                      /\ B' = [B EXCEPT ![j] = [aid |-> aid, y |-> y]] /\ pending' = [pending EXCEPT !.tb = @ \cup {j}]
                      /\ ntx' = ntx + 1 /\ UNCHANGED <<A, view, events>>
 
-(* handle_candidates for the buffered candidates: table A first, then table B *)
+(* handle_candidates for one table: S = the per-table statement's result (state_results), the stored rows carrying     *)
+(* the candidate keys are T (temp_query).  INSERT .. SELECT (S EXCEPT T) ON CONFLICT(pks) DO UPDATE .. WHERE some      *)
+(* column differs; then DELETE the stored rows whose keys are in (T' EXCEPT S).  One event per row touched.            *)
+SamePk(t, r) == t.a = r.a /\ t.b = r.b
+Differs(t, r) == IF NullSafe THEN t.x # r.x \/ t.y # r.y
+                 ELSE (t.x # r.x /\ ~IsNull(t.x) /\ ~IsNull(r.x)) \/ (t.y # r.y /\ ~IsNull(t.y) /\ ~IsNull(r.y))
+StepTable(v, Sel(_), S) ==
+    LET T == {r \in v : Sel(r)}
+        R == S \ T
+        applied == {r \in R : \A t \in v : SamePk(t, r) => Differs(t, r)}
+        v1 == (v \ {t \in v : \E r \in applied : SamePk(t, r)}) \cup applied
+        T1 == {r \in v1 : Sel(r)}
+        D == T1 \ S
+        gone == {t \in v1 : \E d \in D : SamePk(t, d)}
+    IN [view |-> v1 \ gone, n |-> Cardinality(applied) + Cardinality(gone)]
+
 Process ==
     /\ pending.ta # {} \/ pending.tb # {}
-    /\ LET v1 == (view \ {r \in view : r.a \in pending.ta}) \cup QForA(pending.ta)
-           v2 == IF Shape = "filter" THEN v1 ELSE (v1 \ {r \in v1 : r.b \in pending.tb}) \cup QForB(pending.tb)
-       IN /\ view' = v2
-          /\ events' = events + Cardinality((view \ v2) \cup (v2 \ view))
+    /\ LET SelA(r) == r.a \in pending.ta
+           SelB(r) == r.b \in pending.tb
+           s1 == IF pending.ta # {} THEN StepTable(view, SelA, QForA(pending.ta)) ELSE [view |-> view, n |-> 0]
+           s2 == IF Shape \in {"filter", "plain"} \/ pending.tb = {} THEN [view |-> s1.view, n |-> 0] ELSE StepTable(s1.view, SelB, QForB(pending.tb))
+       IN /\ view' = s2.view
+          /\ events' = events + s1.n + s2.n
     /\ pending' = [ta |-> {}, tb |-> {}]
     /\ UNCHANGED <<A, B, ntx>>
 
-Next == (\E i \in Ids, x \in Vals \cup {0} : WriteA(i, x)) \/ (\E j \in Ids, aid \in Ids \cup {0}, y \in Vals \cup {0} : WriteB(j, aid, y)) \/ Process
+Next == (\E i \in Ids, x \in Vals \cup {0, Null} : WriteA(i, x)) \/ (\E j \in Ids, aid \in Ids \cup {0}, y \in Vals \cup {0, Null} : WriteB(j, aid, y)) \/ Process
 Spec == Init /\ [][Next]_vars
 
 (* C11: after the node has processed the changes, the materialised rows equal the query on the database *)
 C11_View == (pending.ta = {} /\ pending.tb = {}) => view = Q
+(* at most one stored row per primary-key tuple *)
+C11_Keys == \A t, r \in view : SamePk(t, r) => t = r
 =============================================================================
